@@ -30,7 +30,9 @@ Inductive curk := KFresh | KKeep | KSet (c : Z) | KCond (c0 c : Z).   (* KCond: 
 Inductive lockk := Excl | Lease | GrantAll.
 Record cfg := { cas : bool; lockkind : lockk }.
 
-Inductive outcome := Success | Conflict.
+Inductive outcome := Success | Conflict
+  | Aborted          (* the call raised / the process died BEFORE the pointer flip *)
+  | AbortedPost.     (* the call raised / the process died AFTER its pointer flip (interrupt, crash) *)
 
 Inductive pc :=
 | PIdle                      (* before the base read of an attempt *)
@@ -65,7 +67,9 @@ Inductive evkind :=
 | EMetaW (now : Z)                   (* write the new version; `now` is the clock reading *)
 | EFence (ok : bool)
 | EFlip (ok : bool)
-| ERelease.
+| ERelease
+| EAbort                             (* an exception / asynchronous interrupt escapes commit(): `finally` releases the lock *)
+| ECrash.                            (* the process dies: no handler runs; the kernel drops a flock, a lease stays *)
 
 Record event := { e_actor : aid; e_kind : evkind }.
 
@@ -165,6 +169,21 @@ Definition step (c : cfg) (w : world) (e : event) : option world :=
     Some {| w_ptr := w_ptr w; w_files := w_files w;
             w_lock := match w_lock w with Some b => if Nat.eqb a b then None else Some b | None => None end;
             w_hist := w_hist w; w_repl := w_repl w; w_actors := upd a s' (w_actors w) |}
+  | EAbort, PDone _ => None
+  | EAbort, p =>
+    Some {| w_ptr := w_ptr w; w_files := w_files w;
+            w_lock := match w_lock w with Some b => if Nat.eqb a b then None else Some b | None => None end;
+            w_hist := w_hist w; w_repl := w_repl w;
+            w_actors := upd a (set_pc s (PDone (match p with PFlipped => AbortedPost | _ => Aborted end))) (w_actors w) |}
+  | ECrash, PDone _ => None
+  | ECrash, p =>
+    Some {| w_ptr := w_ptr w; w_files := w_files w;
+            w_lock := match lockkind c with
+                      | Lease => w_lock w          (* the lock object stays until its lease lapses (ESteal) *)
+                      | _ => match w_lock w with Some b => if Nat.eqb a b then None else Some b | None => None end
+                      end;
+            w_hist := w_hist w; w_repl := w_repl w;
+            w_actors := upd a (set_pc s (PDone (match p with PFlipped => AbortedPost | _ => Aborted end))) (w_actors w) |}
   | _, _ => None
   end.
 
@@ -189,6 +208,6 @@ Definition init_world (m0 : meta) (kind : aid -> curk) (mr : aid -> nat) : world
 
 (* observable summary used by the correspondence harness *)
 Definition outcome_code (p : pc) : Z :=
-  match p with PDone Success => 1 | PDone Conflict => 2 | PFlipped => 3 | _ => 0 end.
+  match p with PDone Success => 1 | PDone Conflict => 2 | PFlipped => 3 | PDone Aborted => 4 | PDone AbortedPost => 5 | _ => 0 end.
 Definition summary (w : world) (n : nat) : (nat * list nat * list (nat * nat) * list Z) :=
   (w_ptr w, m_ops (file w (w_ptr w)), w_hist w, map (fun a => outcome_code (a_pc (w_actors w a))) (seq 0 n)).
